@@ -36,6 +36,20 @@ def run(facts, tr, rep):
     nok = 0
     for (i, j, node) in ret_assigns(tr, A):
         if node[0] != "agg":
+            # a try-acquire result handed back through Ok-preserving combinators (`map`, `map_err`, ..) admits the caller on
+            # every Ok, also on Ok(wait > 0) = "no permit taken"
+            for lf in leaves(node):
+                lf = peel(lf)
+                hops, cur = 0, lf
+                while cur[0] == "call" and tr.call_of(cur).name in ("map", "map_err", "or", "inspect", "inspect_err") and hops < 6:
+                    cc_ = tr.call_of(cur)
+                    cur = peel(tr.expand(tr.operand(cc_.g.b, cc_.args[0], cc_.loc)))
+                    hops += 1
+                if hops and cur in tnodes.values():
+                    nok += 1
+                    rep.ob("C02.PROTOCOL", skey(A, "ok-return#%d" % (nok - 1)), False, g.where(i, j),
+                           "a try-acquire result is returned through `%s`, which keeps every Ok: the caller is admitted also when the window "
+                           "state answered Ok(wait > 0), i.e. without having taken a permit" % tr.call_of(lf).name)
             continue
         _b, rv = tr.agg_of(node)
         if rv.get("variant") != "Ok" or not rv.get("def", "").endswith("Result"):
